@@ -1,0 +1,62 @@
+//go:build verif
+
+// Contracts for gocv (see /verif/DESIGN.md). Comment-only file: takes no part in any build.
+
+package download
+
+// ---- C35: peer selection and removal of one download task (sequential view of one height) -------------
+//@ pure func (*github.com/33cn/chain33/system/p2p/dht/manage.PeerInfoManager).PeerHeight
+//@ pure func (github.com/33cn/chain33/system/p2p/dht/protocol.IPeerInfoManager).PeerHeight
+
+// Remove drops exactly the entry at task.Index (the position availbTask recorded) and keeps the order
+//@ func (tasks).Remove [C35]
+//@   opt overflow=assumed
+//@   requires task != nil && task.Index >= 0
+//@   ensures old(task.Index) >= len(t) ==> result == t
+//@   ensures old(task.Index) < len(t) ==> len(result) == len(t) - 1
+//@   ensures old(task.Index) < len(t) ==> forall j :: 0 <= j && j < old(task.Index) ==> result[j] == old(t[j])
+//@   ensures old(task.Index) < len(t) ==> forall j :: old(task.Index) <= j && j < len(t) - 1 ==> result[j] == old(t[j + 1])
+
+// the chosen peer is an entry of the list, serves the height, is below its job limit, and remembers its
+// position
+//@ func (*Protocol).availbTask [C35]
+//@   opt overflow=assumed safety=assumed
+//@   requires len(ts) > 0
+//@   ensures result != nil ==> 0 <= result.Index && result.Index < len(ts) && ts[result.Index] == result
+//@   ensures result != nil ==> ret(PeerHeight) >= blockheight && result.TaskNum == old(result.TaskNum) + 1
+//@   assert@call PeerHeight: arg1 == ts[rangeindex].Pid
+//@   loop 0 invariant rangeindex >= -1
+
+//@ func (*Protocol).releaseJob [C35]
+//@   opt overflow=assumed
+//@   frame taskInfo.TaskNum
+//@   requires js != nil
+//@   ensures js.TaskNum >= 0 && (old(js.TaskNum) >= 1 ==> js.TaskNum == old(js.TaskNum) - 1)
+
+//@ pure func (*Protocol).downloadBlockFromPeerOld
+//@ pure func (*Counter).UpdateTaskInfo
+//@ pure func (github.com/33cn/chain33/queue.Client).NewMessage
+//@ pure func (github.com/33cn/chain33/queue.Client).Send
+//@ pure func (github.com/libp2p/go-libp2p/core/peer.ID).Pretty
+//@ pure func (*github.com/33cn/chain33/types.Block).Size
+//@ pure func time.Now
+//@ pure func time.Since
+//@ pure func (time.Duration).Milliseconds
+//@ pure func (context.Context).Done
+//@ pure func (context.Context).Err
+//@ trusted func (tasks).Sort
+//@   frame mem:*github.com/33cn/chain33/system/p2p/dht/protocol/download.taskInfo
+//@   ensures result == t
+
+// one height: a peer is only asked when the list is non-empty; a peer whose download failed is released and
+// removed from this height's list before the next attempt; the block is handed to the blockchain only
+// after a successful download from the chosen peer; at most 50 attempts (the task terminates)
+//@ func (*Protocol).downloadBlock [C35]
+//@   opt safety=assumed overflow=assumed panics=allowed
+//@   assert@call availbTask: len(arg1) > 0 && arg2 == height && retryCount <= 50
+//@   assert@call downloadBlockFromPeerOld: arg1 == height && arg2 == ret(availbTask).Pid && ret(availbTask) != nil
+//@   assert@call Remove: ret1(downloadBlockFromPeerOld) != nil && arg1 == ret(availbTask) && called(releaseJob)
+//@   assert@call Send: ret1(downloadBlockFromPeerOld) == nil
+//@   ensures result == nil && !called(Err) ==> called(Send) && ret1(downloadBlockFromPeerOld) == nil
+//@   loop 0 invariant retryCount >= 0
+//@   loop 0 decreases 51 - retryCount
